@@ -141,10 +141,16 @@ fn core_grids() -> Vec<V> {
 
 pub fn run(tier: Tier) -> i32 {
     let mut run = Run::new("C04", tier, "model_checking");
-    run.rule = "reference Zinc reader/writer written from the grammar (DESIGN Appendix A.1). Direction 1: every value of Σ ∪ U encoded by libhaystack is parsed by the strict reference reader and must denote the value. Direction 2: for every value, every spelling the reference writer can produce with <= b deviations from the canonical spelling (choice points: CRLF per line, spaces after/before commas and inside brackets, dict separator, trailing list comma, each character literal vs short escape vs \\uXXXX lower/upper, number as integer/.0/exponent e|E|e+|E-|shifted ±1/underscores, marker as m vs m:M, Z vs Z UTC, Z vs +00:00 for zero-offset zones, fraction digits padded to 3/6/9, trailing blank line, newline after <<) is decoded by libhaystack and must give the value. states = values explored in direction 2, transitions = spellings executed, traces_validated = spellings decoded by the implementation (all of them); non-trivial as C01".into();
+    run.rule = "reference Zinc reader/writer written from the grammar (DESIGN Appendix A.1). Direction 1: every value of Σ ∪ U encoded by libhaystack is parsed by the strict reference reader and must denote the value. Direction 2: for every value, every spelling the reference writer can produce with <= b deviations from the canonical spelling (choice points: CRLF per line, spaces after/before commas and inside brackets, dict separator, trailing list comma, each character literal vs short escape vs \\uXXXX lower/upper, number as integer/.0/exponent e|E|e+|E-|shifted ±1/underscores, marker as m vs m:M, Z vs Z UTC, Z vs +00:00 for zero-offset zones, fraction digits padded to 3/6/9, trailing blank line, newline after <<) is decoded by libhaystack and must give the value. states = values explored in direction 2, transitions = spellings executed, traces_validated = spellings decoded by the implementation (all of them); non-trivial as C01 Plus every escape form (short escapes, \\uXXXX decoding to 1 / 2 / 3 bytes, a surrogate pair, raw multi-byte characters) after every number 0..600 of plain bytes in Str / Ref display name / XStr / Uri: decoded to the reference reader's value.".into();
     run.assume("the grammar of DESIGN Appendix A.1 is the Project Haystack Zinc grammar (written from memory of the specification; constructs marked (L) are accepted by the reference reader and never written)");
     run.assume("reference writer -> reference reader is checked to be the identity on every explored spelling (else exit 2)");
     crate::engine::quiet_panics();
+    {
+        let pool: Vec<V> = super::c01::probe_pool();
+        if super::common::probe_first(&mut run, "zinc-codec", &pool, &super::c01::zinc_observation, &|v: &V| crate::model::v::to_json(v)) {
+            return run.finish(&replay);
+        }
+    }
 
     // ---- direction 1
     let scalars = u::scalars(tier);
@@ -175,6 +181,25 @@ pub fn run(tier: Tier) -> i32 {
     run.absorb(l);
 
     // ---- direction 2
+    // escapes at every offset 0..=600 (11 forms x 4 string positions)
+    {
+        let l = par_for(601, |k, local| {
+            for form in 0..11usize {
+                for pos in 0..4usize {
+                    if pos > 0 && !(k % 5 == 0 || (60..=130).contains(&k) || (250..=260).contains(&k) || (505..=520).contains(&k)) {
+                        continue;
+                    }
+                    local.eval();
+                    local.transitions += 1;
+                    local.count("escape-offset-documents");
+                    if let Err((sig, d)) = escape_offset_case(k, form, pos) {
+                        local.fail(&sig, json!({"escape_offset": [k, form, pos]}), d);
+                    }
+                }
+            }
+        });
+        run.absorb(l);
+    }
     // (a) every scalar: all spellings with <= 2 deviations; unbounded when the space is small
     let sc2 = u::scalars(Tier::Quick);
     let l = par_for(sc2.len(), |i, local| {
@@ -266,7 +291,41 @@ pub fn run(tier: Tier) -> i32 {
     run.finish(&replay)
 }
 
+
+/// Direction 2 for escapes at every offset: the text `"` + k plain bytes + one escape form + `b"`
+/// (also as a Ref display name, an XStr payload, a Uri) denotes, by the reference reader, a value;
+/// libhaystack must decode the text to that value — for every k 0..=600 (whatever the size of a
+/// decoder's internal chunk, some k puts the escape across its end).
+fn escape_offset_case(k: usize, form: usize, pos: usize) -> Verdict {
+    const ESC: [&str; 11] = ["\\n", "\\\\", "\\\"", "\\$", "\\u0041", "\\u00e9", "\\u20ac", "\\ud83d\\ude00", "é", "€", "😀"];
+    let pad = "a".repeat(k);
+    let esc = ESC[form];
+    let text = match pos {
+        0 => format!("\"{pad}{esc}b\""),
+        1 => format!("@r \"{pad}{esc}\""),
+        2 => format!("Bin(\"{pad}{esc}b\")"),
+        _ => format!("`{pad}{}`", if esc == "\\\"" || esc == "\\$" { "\\`" } else { esc }),
+    };
+    let want = match zinc_ref::read(&text) {
+        Ok(v) => v,
+        Err(_) => return Ok(()),
+    };
+    match guarded(|| libhaystack::encoding::zinc::decode::from_str(&text)) {
+        Err(p) => Err(("d2-decode-panic[escape-at-offset]".into(), format!("{p}; {k} plain bytes before {esc:?}"))),
+        Ok(Err(e)) => Err(("d2-decode-error[escape-at-offset]".into(), format!("{e}; {k} plain bytes before {esc:?}"))),
+        Ok(Ok(b)) => same(&want, &crate::model::v::from_lib(&b)).map_err(|d| ("d2-decoded-other-value[escape-at-offset]".to_string(), format!("{d}; {k} plain bytes before {esc:?}"))),
+    }
+}
+
 pub fn replay(case: &J) -> Verdict {
+    if case["free_running"] == "zinc-codec" {
+        let pool: Vec<V> = super::c01::probe_pool();
+        return super::common::replay_probe(&pool, &super::c01::zinc_observation, &|v: &V| crate::model::v::to_json(v));
+    }
+    if let Some(a) = case["escape_offset"].as_array() {
+        let g = |i: usize| a[i].as_u64().unwrap_or(0) as usize;
+        return escape_offset_case(g(0), g(1), g(2));
+    }
     if let Some(i) = case["size_witness"].as_u64() {
         let tier = if case["tier"] == "thorough" { Tier::Thorough } else { Tier::Quick };
         return size_witness_case(i as usize, tier);
